@@ -14,7 +14,11 @@ def intTy : String → Option (Bool × Nat)
   | _ => none
 
 def floatTy : String → Option FloatFmt
-  | "f32" => some f32 | "f64" => some f64 | _ => none
+  | "f32" => some f32 | "f64" => some f64 | "f16" => some f16 | "bf16" => some bf16 | _ => none
+
+/-- format of a hook request `h_… 0 <width> <f> …`: width 32 / 64, or width 16 with the `f` field carrying `PREC` (11 = f16, 8 = bf16) -/
+def hookFmt (L : Layout) : FloatFmt :=
+  if L.n = 16 then (if L.f = 8 then bf16 else f16) else if L.n = 32 then f32 else f64
 
 def ordStr : Option Int → String
   | none => "U" | some c => toString c
@@ -92,6 +96,19 @@ def ffromSpec (p : Profile) (D : Layout) (F : FloatFmt) (b : Nat) (form : String
     | "saturating_from" => if isInf then some (toString (if neg then D.min else D.max)) else some "P"
     | _ => some "P"
 
+/-- `to_float_kind` (documented): NaN / infinity by class; a finite float `num·2^e` is rounded to the destination grid `2^-dstFrac` to nearest,
+ties to even (`R`), `dir` is the direction of that rounding (`cmp(rounded, exact)`), the helper reports the sign of `R`, its low 128 bits
+(as `i128` when negative) and whether `R` needs more than `dstFrac + dstInt` bits; the outer flag is the sign of the float value (zeros: `false`) -/
+def kindSpec (F : FloatFmt) (b dstFrac dstInt : Nat) : String :=
+  match floatExact F b with
+  | none => if (F.parts b).2.2 = 0 then s!"inf,{b01 (F.parts b).1}" else "nan"
+  | some (num, e) =>
+    let k : Int := e + dstFrac
+    let R := rneScaled num k
+    let dir : Int := if 0 ≤ k then 0 else Layout.cmpInt (R * 2 ^ (-k).toNat) num
+    let ovf : Bool := if 0 < R then decide (2 ^ (dstFrac + dstInt) ≤ R) else decide (R < -(2 ^ (dstFrac + dstInt - 1)))
+    s!"fin,{b01 (decide (num < 0))},{b01 (decide (R < 0))},{wrapI (decide (R < 0)) 128 R},{dir},{b01 ovf}"
+
 /-- `Wrapping::<F>::from_num(src)` is `src.wrapping_to_fixed()` and `Wrapping(x).to_num::<Dst>()` is `Dst::wrapping_from_fixed(x)` (`wrapping.rs`):
 the `…_wfrom` / `…_wto` requests are answered by the wrapping forms of the conversion model -/
 def normW (op : String) : String :=
@@ -113,7 +130,7 @@ def model (p : Profile) (L : Layout) (op : String) (a : List String) : Option St
     match a with
     | [b, df, di] => do
       let b ← b.toNat?; let df ← df.toNat?; let di ← di.toNat?
-      let F := if L.n = 32 then f32 else f64
+      let F := hookFmt L
       pure (match toFloatKind F b df di with
         | .nan => "nan"
         | .infinite neg => s!"inf,{b01 neg}"
@@ -123,7 +140,7 @@ def model (p : Profile) (L : Layout) (op : String) (a : List String) : Option St
     match a with
     | [neg, abs, fb, ib] => do
       let abs ← abs.toNat?; let fb ← fb.toNat?; let ib ← ib.toNat?
-      let F := if L.n = 32 then f32 else f64
+      let F := hookFmt L
       pure (toString (fromToFloatHelper F (neg == "1") abs fb ib))
     | _ => none
   else if op == "cvt_from" || op == "cvt_lossy" then
@@ -255,11 +272,17 @@ def spec (p : Profile) (L : Layout) (op : String) (a : List String) : Option Str
         | none => if (F.parts b).2.2 = 0 then some (if (F.parts b).1 then 1 else -1) else none
       cmpStr (if rev then c.map (fun v => -v) else c) (op.drop (if rev then 6 else 5)).toString
     | _ => none
+  else if op == "h_to_float_kind" then
+    match a with
+    | [b, df, di] => do
+      let b ← b.toNat?; let df ← df.toNat?; let di ← di.toNat?
+      if df + di = 0 then none else pure (kindSpec (hookFmt L) b df di)
+    | _ => none
   else if op == "h_from_to_float" then
     match a with
     | [neg, abs, fb, ib] => do
       let abs ← abs.toNat?; let fb ← fb.toNat?; let _ ← ib.toNat?
-      let F := if L.n = 32 then f32 else f64
+      let F := hookFmt L
       -- −0 for a zero magnitude with the sign set is what the helper documents (sign bit only)
       pure (toString (if abs = 0 then (if neg == "1" then F.signMask else 0) else rneFloat F fb (if neg == "1" then -(abs : Int) else abs)))
     | _ => none
